@@ -158,24 +158,55 @@ func (w *world) newSession(lim limits) *session {
 	return s
 }
 
-// exchange plays: connection 1 receives the given lines (the way multiLineReader hands records over) and its periodic
-// flush fires; then connection 2 receives one line and flushes; then every pipeline's ticker fires. The pipelines'
-// input channels are served on the calling goroutine. Returns the counter increments.
-func (s *session) exchange(conn1 []string, conn2 string) counts {
+// exchange plays one case on the two connections and returns the counter increments. The pipelines' input channels are
+// served on the calling goroutine.
+//
+//	shape 0: connection 1 receives the given lines (the way multiLineReader hands records over) and its periodic flush
+//	         fires; then connection 2 receives one line and flushes.
+//	shape 1: the periodic flush of connection 1 falls between the last-but-one line and the last one (between the bad
+//	         record and the record behind it), and connection 2's line arrives while connection 1 still holds its last
+//	         line unflushed; then connection 1 flushes, then connection 2.
+func (s *session) exchange(conn1 []string, conn2 string, shape int) counts {
 	s.lim.apply()
 	s.cases++
-	for _, l := range conn1 {
+	for i, l := range conn1 {
+		if shape == 1 && i == len(conn1)-1 {
+			s.c1.Flush()
+			s.in.drain()
+		}
 		s.accept(s.c1, l)
+	}
+	if shape == 1 {
+		s.accept(s.c2, conn2)
 	}
 	s.c1.Flush()
 	s.in.drain()
-	s.accept(s.c2, conn2)
+	if shape != 1 {
+		s.accept(s.c2, conn2)
+	}
 	s.c2.Flush()
 	s.in.drain()
 	p, d := int(s.inPass.Get()), int(s.inDrop.Get())
 	c := counts{inPassed: p - s.prev.inPassed, inDropped: d - s.prev.inDropped}
 	s.prev.inPassed, s.prev.inDropped = p, d
 	return c
+}
+
+// feed hands lines to connection 1 only (soak groups): a flush every 100 lines.
+func (s *session) feed(n int, gen func(i int) string, from int) (bytes int) {
+	s.lim.apply()
+	for i := from; i < from+n; i++ {
+		l := gen(i)
+		bytes += len(l)
+		s.accept(s.c1, l)
+		if i%100 == 99 {
+			s.c1.Flush()
+			s.in.drain()
+		}
+	}
+	s.c1.Flush()
+	s.in.drain()
+	return bytes
 }
 
 // judged forgets what has been delivered so far (called once the output of a tick has been judged).
